@@ -50,8 +50,8 @@
     `base = wal_offset + wal_size`, so that WAL growth (which shifts every byte after the WAL) does not
     change them.  Absolute values are `base + x`.
   * The model mirrors the code as it is, including the confirmed defects that belong to other
-    properties: capacity check against the COMMITTED payload end (C24), `parent_seq as FrameId` for
-    cards / enrichment records / queue entries / instant index (C26), embeddings dropped by
+    properties: capacity check against the COMMITTED payload end (C24), (C26 repaired in a8580e2: cards / enrichment records /
+    queue entries / instant index now carry `next_frame_id()` taken before the append), embeddings dropped by
     `commit_skip_indexes` (C40/C14).
 -/
 namespace Mv.Core
@@ -637,24 +637,26 @@ def Mem.autoCommit (m : Mem) (t : Trace) : Mem :=
     enrichment queue) -/
 def Mem.appendPut (m : Mem) (a : PutArgs) (supersedes reuse : Option Nat) : Mem :=
   let recs := putRecords m.seq a supersedes reuse
-  let pseq := m.seq + 1
+  -- `assigned_frame_id = next_frame_id()` before the append (repair a8580e2; the WAL sequence number
+  -- was used before)
+  let fid := m.nextFrameId
   let instant := a.ii && m.engine && a.st
   { m with
     pending := m.pending ++ recs
     seq := m.seq + recs.length
     pendingInserts := m.pendingInserts + recs.length
     dirty := true
-    lexDocs := if instant then m.lexDocs ++ [pseq] else m.lexDocs
+    lexDocs := if instant then m.lexDocs ++ [fid] else m.lexDocs
     tantivyDirty := if instant then true else m.tantivyDirty
-    queue := if a.q then m.queue ++ [pseq] else m.queue }
+    queue := if a.q then m.queue ++ [fid] else m.queue }
 
 /-- after the appends of put/delete: the WAL may have grown; the automatic checkpoint fires unless
     batch mode suppresses it -/
 def Mem.afterAppend (m : Mem) (t : Trace) : Mem :=
   if m.batch == some true then m.setWalSize t.ws else (m.setWalSize t.ws).autoCommit t
 
-/-- triplet extraction at the very end of a put: cards and the enrichment record carry the WAL
-    sequence number as frame id -/
+/-- triplet extraction at the very end of a put: cards and the enrichment record carry the frame id
+    the document receives (`fid`; before repair a8580e2: the WAL sequence number) -/
 def Mem.addCards (m : Mem) (nc pseq : Nat) : Mem :=
   if nc = 0 then m else
   { m with cards := m.cards ++ List.replicate nc pseq
@@ -688,7 +690,7 @@ def Mem.overCap (m : Mem) (a : PutArgs) (reuse : Option Nat) : Bool :=
 def Mem.putTail (m : Mem) (a : PutArgs) (supersedes reuse : Option Nat) (t : Trace) : Mem × Out :=
   if m.base + m.payloadEnd + a.plen > m.capacityLimit then (m, .err "capacity") else
   if m.overCap a reuse then (m, .err "capacity") else
-  ((((m.appendPut a supersedes reuse).afterAppend t).addCards a.nc (m.seq + 1)), .seq (m.seq + 1))
+  ((((m.appendPut a supersedes reuse).afterAppend t).addCards a.nc m.nextFrameId), .seq (m.seq + 1))
 
 /-- `enable_vec()` as `put_internal` calls it for the first embedded put (its effects survive a later
     rejection of that put) -/
